@@ -459,10 +459,6 @@ func findPendingCmdByType[T command](c *Client) T {
 }
 
 func (c *Client) completeCommand(cmd command, err error) {
-	done := cmd.base().done
-	done <- err
-	close(done)
-
 	// Ensure the command is not blocked waiting on continuation requests
 	c.mutex.Lock()
 	var filtered []continuationRequest
@@ -519,6 +515,12 @@ func (c *Client) completeCommand(cmd command, err error) {
 	case *ExpungeCommand:
 		close(cmd.seqNums)
 	}
+
+	// Wake up the caller last: the commands it sends next must see the
+	// updated state
+	done := cmd.base().done
+	done <- err
+	close(done)
 }
 
 func (c *Client) registerContReq(cmd command) *imapwire.ContinuationRequest {
@@ -751,18 +753,20 @@ func (c *Client) readResponseTagged(tag, typ string) (startTLS *startTLSCommand,
 		return nil, fmt.Errorf("in resp-cond-state: expected OK, NO or BAD status condition, but got %v", typ)
 	}
 
+	if cmdErr == nil && code != "CAPABILITY" {
+		switch cmd.(type) {
+		case *startTLSCommand, *loginCommand, *authenticateCommand, *unauthenticateCommand:
+			// These commands invalidate the capabilities. This needs to
+			// happen before the command is completed: the next command of
+			// the caller must not be encoded according to the old ones.
+			c.setCaps(nil)
+		}
+	}
+
 	c.completeCommand(cmd, cmdErr)
 
 	if cmd, ok := cmd.(*startTLSCommand); ok && cmdErr == nil {
 		startTLS = cmd
-	}
-
-	if cmdErr == nil && code != "CAPABILITY" {
-		switch cmd.(type) {
-		case *startTLSCommand, *loginCommand, *authenticateCommand, *unauthenticateCommand:
-			// These commands invalidate the capabilities
-			c.setCaps(nil)
-		}
 	}
 
 	return startTLS, nil
